@@ -3,7 +3,7 @@ from __future__ import annotations
 
 from typing import Optional
 
-from .. import decoders, guards, render, sym
+from .. import decoders, guards, normal, render, sym
 from ..model import AnalysisError, Repo
 from ..report import Run
 from ..sym import T, const, param
@@ -55,7 +55,7 @@ def check(repo: Repo, run: Run) -> None:
     M = e.module.name
     if d.ret.op != "new":
         raise AnalysisError("MACH_vmfault decoder does not return a constructed object")
-    f = dict(d.ret.a[1])
+    f = {k: normal.normalise(d.rec, v) for k, v in d.ret.a[1]}
     run.ob("R1", M, e.func_name, "result is END word 2", f.get("result") == end_word(2),
            f"result is {sym.pretty(f.get('result'))[:60]}, not events[-1].values[2]", line=e.func.lineno)
     ft = f.get("fault_type")
@@ -112,7 +112,7 @@ def check(repo: Repo, run: Run) -> None:
     e = entry(D, "DBG_DYLD_TIMING_LAUNCH_EXECUTABLE")
     d = D.decode(e)
     M = e.module.name
-    f = dict(d.ret.a[1]) if d.ret.op == "new" else {}
+    f = {k: normal.normalise(d.rec, v) for k, v in d.ret.a[1]} if d.ret.op == "new" else {}
     lst = f.get("uuid_map_a")
     ok_sorted = lst is not None and lst.op == "call" and lst.a[0] == T("builtin", ("sorted",)) and len(lst.a[1]) == 1
     key_ok = False
@@ -157,7 +157,7 @@ def check(repo: Repo, run: Run) -> None:
     e = entry(D, "PERF_Event")
     d = D.decode(e)
     M = e.module.name
-    f = dict(d.ret.a[1]) if d.ret.op == "new" else {}
+    f = {k: normal.normalise(d.rec, v) for k, v in d.ret.a[1]} if d.ret.op == "new" else {}
     sw = f.get("sample_what")
     SA = "pykdebugparser.trace_handlers.perf.SamplerAction"
     for fld, flag, rec_name in (("th_info", "SAMPLER_TH_INFO", "PERF_THD_Data"), ("cs_frames", "SAMPLER_USTACK", "PERF_STK_UHdr"),
